@@ -532,6 +532,20 @@ func c19RunJSON(o *out, id int, c c19case, dir string) error {
 		s = newSched("js.send", c.stallAt)
 	}
 
+	// every other run with a re-readable source delivers through OutputFilePrefix instead of the returned bytes; a
+	// longer file of an earlier run is already there (the same prefix used twice): it must be replaced, not patched
+	outPrefix := ""
+	var stale []byte
+	if (c.mode == "reader" || c.mode == "file" || c.mode == "chunked") && id%2 == 0 {
+		outPrefix = filepath.Join(dir, fmt.Sprintf("c19out.%d", id))
+		stale = bytes.Repeat([]byte("stale output of an earlier run\n"), 4096)
+		if err := ioutil.WriteFile(outPrefix+".0", stale, 0600); err != nil {
+			return err
+		}
+		defer os.Remove(outPrefix + ".0")
+		opts.OutputFilePrefix = outPrefix
+	}
+
 	// the harness's own view of the lines, cross-checked with a scanner that has a large buffer
 	raws := c19RawLines(input)
 	big := bufio.NewScanner(bytes.NewReader(input))
@@ -570,6 +584,18 @@ func c19RunJSON(o *out, id int, c c19case, dir string) error {
 	case res = <-done:
 	case <-time.After(5 * time.Second):
 		hang = true
+	}
+	if outPrefix != "" && !hang {
+		// what was delivered is the file (if the run wrote it) followed by whatever was returned (nothing, normally)
+		if data, err := ioutil.ReadFile(outPrefix + ".0"); err == nil && !bytes.Equal(data, stale) {
+			res.out = append(data, res.out...)
+		}
+		if more, _ := filepath.Glob(outPrefix + ".*"); len(more) > 1 {
+			for _, f := range more {
+				os.Remove(f)
+			}
+			return fmt.Errorf("case %d: more than one output file for a single flush: %v", id, more)
+		}
 	}
 	if s != nil {
 		uninstallSched()
